@@ -148,6 +148,27 @@ func c17Exec(op string) string {
 	if note := keptResults(m, other); note != "" {
 		notes = append(notes, note)
 	}
+	// value lists / path lists / leaf lists returned by one query stay what they were while other
+	// queries run (no result buffer shared between calls)
+	{
+		mv := mxj.Map(m)
+		r1, _ := mv.ValuesForPath(path)
+		r2, _ := mv.ValuesForKey(key)
+		r3 := mv.PathsForKey(key)
+		r4 := mv.LeafNodes()
+		k1, k2, k3, k4 := enc(r1), enc(r2), strings.Join(r3, ","), fmt.Sprint(r4)
+		mv.ValuesForPath("*")
+		mv.ValuesForPath(path + ".zz")
+		mv.ValuesForKey("a")
+		mv.ValuesForKey("zz")
+		mv.PathsForKey("a")
+		mv.LeafNodes()
+		mxj.Map(other).ValuesForPath(path)
+		mxj.Map(other).LeafNodes()
+		if enc(r1) != k1 || enc(r2) != k2 || strings.Join(r3, ",") != k3 || fmt.Sprint(r4) != k4 {
+			notes = append(notes, "KEPTVALUES a result list returned by a query changed while later queries ran")
+		}
+	}
 	// Copy: equal, and sharing nothing mutable
 	cp, err := mxj.Map(m).Copy()
 	if err == nil {
